@@ -43,7 +43,7 @@ EXPLANATION = (
     "size, by linear-form interpretation: SIZE = 4 + 8*[seg_i>0] + 12*seg_i from has_required_size, range ends from the "
     "accessors, compared under the path conditions (idx < count). Thorough tier: the dev "
     "configuration's debug_assert! contracts of core::{layout,read,write,view} are tied to invariants re-decided at every call "
-    "site (br-aligned, br-sizebits, acc-contract, hrs); 7 compile-fail witnesses (with compiling twins) make rustc itself "
+    "site (br-aligned, br-sizebits, acc-contract, hrs); 8 compile-fail witnesses (with compiling twins) make rustc itself "
     "reject safe-code use of the unchecked constructors, size-field writers, raw mutable escape and unchecked encoder."
 )
 EXPLANATION_ADD5 = " Round-5 addition: (EXACT) every View::from_*_unchecked call in the View trait's safe default methods receives a buffer of exactly has_required_size(buf) bytes: the first half of split_at[_mut]_unchecked(buf, SIZE), or the whole buffer on the pass edge of a switch on len(buf) ==/!= SIZE (try_from_boxed), or a copy of self.as_slice() (to_boxed) — the premise of SUBVIEW/HRS and of the fixed-size from_boxed_unchecked impls."
@@ -935,7 +935,7 @@ def thorough_extra(R):
         if not ok:
             why = "the violating program compiles" if r["compile_fail"] is False else ("the twin does not compile (witness path is stale)" if r["twin_compiles"] is False else "no verdict (build failed?)")
             R.violation("WITNESS", w, "compile-fail witness %s (engine/witness/src/lib.rs) no longer holds: %s" % (w, why), None, {"log_tail": tail[-1200:]})
-    R.floor("WITNESS", n, 7, "compile-fail witnesses with compiling twins")
+    R.floor("WITNESS", n, 8, "compile-fail witnesses with compiling twins")
 
 
 # ---------------------------------------------------------------------------------------------------------------
